@@ -255,8 +255,12 @@ Qed.
 
 Lemma do_op_balanced : forall c d o, balanced d [] (do_op c d o).
 Proof.
-  intros c d o. destruct o as [n v | n | n]; unfold do_op; destruct (tlookup (c_traits c) n) as [t|];
+  intros c d o. destruct o as [n v | n | n | n v | n]; unfold do_op; destruct (tlookup (c_traits c) n) as [t|];
     try (intro a; simpl; led; lia).
+  5:{ intro a. destruct (default_value_for t []) as [[r e] l1] eqn:D.
+      pose proof (default_ledger _ _ _ _ _ a D) as HD. destruct r; simpl; led; lia. }
+  4:{ intro a. destruct (validate t v []) as [[w e] l1] eqn:V.
+      pose proof (validate_ledger _ _ _ _ _ _ a V) as HV. destruct w; simpl; led; lia. }
   - destruct (t_kind t); [apply setattr_trait_balanced | apply setattr_event_balanced | apply setattr_prop_balanced].
   - destruct (t_kind t); [apply do_get_balanced | apply do_get_balanced | apply getattr_prop_balanced].
   - destruct (t_kind t); [apply delattr_trait_balanced | intro a; simpl; led; lia | intro a; simpl; led; lia].
@@ -278,8 +282,10 @@ Qed.
 
 Lemma do_op_no_crash : forall c d o, r_out (do_op c d o) <> Crashed.
 Proof.
-  intros c d o. destruct o as [n v | n | n]; unfold do_op; destruct (tlookup (c_traits c) n) as [t|];
+  intros c d o. destruct o as [n v | n | n | n v | n]; unfold do_op; destruct (tlookup (c_traits c) n) as [t|];
     simpl; try discriminate.
+  5:{ destruct (default_value_for t []) as [[[r|] e] l1]; simpl; discriminate. }
+  4:{ destruct (validate t v []) as [[[w|] e] l1]; simpl; discriminate. }
   - destruct (t_kind t).
     + unfold setattr_trait; cbv zeta.
       destruct (validate t v []) as [[[value|] e] l1]; simpl; try discriminate.
